@@ -126,14 +126,14 @@ def validate_regex_model():
     n = bad = 0
     rows = []
     maxlen = 4 if sl.alpha.n <= 16 else 3
-    for pat in sorted(pats):
+    for pat, fl in sorted((p, f) for p in pats for f in (0, re.ASCII)):
         try:
-            rx = re.compile(pat)
+            rx = re.compile(pat, fl)
         except re.error:
             continue
         for meth in ("match", "fullmatch", "search"):
             try:
-                d = sl.L.regex(pat, meth)
+                d = sl.L.regex(pat, meth, fl)
             except Unsupported as e:
                 rows.append({"pattern": pat, "method": meth, "status": f"unsupported: {e}"})
                 continue
@@ -147,7 +147,7 @@ def validate_regex_model():
                         if mism <= 3:
                             print(f"ANALYSIS-ERROR property=C20 obligation=regex-model reason=model of {meth}({pat!r}) disagrees with stdlib re on {s!r}")
             bad += mism
-            rows.append({"pattern": pat, "method": meth, "dfa_states": d.n, "mismatches": mism})
+            rows.append({"pattern": pat, "flags": "ASCII" if fl else "", "method": meth, "dfa_states": d.n, "mismatches": mism})
     extra = {"regex_model_validation": {"strings_compared": n, "mismatches": bad, "alphabet_classes": sl.alpha.n, "max_length": maxlen, "rows": rows, "wall_s": round(time.time() - t0, 2)}}
     print(f"regex model validation: {n} (pattern, method, string) comparisons against stdlib re, {bad} mismatches")
     return (2 if bad else 0), extra
